@@ -487,7 +487,17 @@ func (s *Server) handlePostTx(w http.ResponseWriter, r *http.Request) {
 		return
 	}
 
-	// TODO(fwd): Ensure halt lock is held by caller.
+	// Ensure halt lock is held by caller. Without it the database is not locked
+	// against local writers and has not been checkpointed for the apply below.
+	lockID, err := strconv.ParseInt(q.Get("lockID"), 10, 64)
+	if err != nil {
+		Error(w, r, fmt.Errorf("invalid lock id: %q", q.Get("lockID")), http.StatusBadRequest)
+		return
+	} else if haltLock := db.HaltLock(); haltLock == nil || haltLock.ID != lockID {
+		Error(w, r, fmt.Errorf("halt lock not held: id=%d", lockID), http.StatusConflict)
+		return
+	}
+
 	// TODO(fwd): Prevent halt lock release during copy & apply.
 
 	// Wrap request body in a chunked reader.
